@@ -86,6 +86,11 @@ static std::string ordered(M* m, const Toks& t, const K&, const V&)
 		for (int i = 0; i < ks.length(); i++) s += " " + show(ks[i]);
 		return s;
 	}
+	if (op == "walk" && n == 3) { // the explicit Map::Enumerator: operator bool, ~e, *e, ++e
+		std::string s = str(a.length());
+		for (typename M::Enumerator e = a.all(); e; ++e) s += " " + show(~e) + ":" + show(*e);
+		return s;
+	}
 	if (op == "dump" && n == 3) {
 		std::string s = str(a.length());
 		int cnt = 0;
@@ -130,6 +135,13 @@ static std::string hashed(M* m, const Toks& t, const K&, const V&)
 		foreach2(K& kk, const V& vv, a) s += " " + show(kk) + ":" + show(vv);
 		return s;
 	}
+	if (op == "walk" && n == 3) { // the explicit HashMap::Enumerator: operator bool, ~e, *e, ++e (no foreach macro)
+		std::string s = str(a.a.length() - ASL_HMAP_SKIP);
+		const M& c = a;
+		for (typename M::Enumerator e = c.all(); e; ++e) s += " " + show(~e) + ":" + show(*e);
+		return s;
+	}
+	if (op == "pot" && n == 4) { long long z = num(t[3]); if (z < -4 || z > 1073741824LL) return "bad-op"; return str(nextPoT((int)z)); }
 	if (op == "dump" && n == 3) {
 		std::vector<Ent> out;
 		foreach2(K& kk, const V& vv, a) out.push_back(ent(kk, show(kk) + ":" + show(vv)));
@@ -184,6 +196,15 @@ static std::string sets(S* m, const Toks& t, const K& kk)
 		if (ASL_HMAP_SKIP != 2) return "err ASL_HMAP_SKIP-is-not-2";
 		std::string s = str(a.a.length() - ASL_HMAP_SKIP);
 		foreach(const K& x, a) s += " " + show(x);
+		return s;
+	}
+	if (op == "walk" && n == 3) { // the explicit Set::Enumerator and array()
+		std::string s = str(a.a.length() - ASL_HMAP_SKIP), s2 = s;
+		const S& c = a;
+		for (typename S::Enumerator e = c.all(); e; ++e) s += " " + show(*e);
+		Array<K> arr = a.array();
+		for (int i = 0; i < arr.length(); i++) s2 += " " + show(arr[i]);
+		if (s != s2) return "err enumerator-vs-array-order";
 		return s;
 	}
 	if (op == "addset" && n == 4) { S other; other << m[slot(t[3])]; a << other; return "ok " + str(a.length()); }
